@@ -8,6 +8,17 @@
 #include "harness/typed_load.hpp"
 #include "bitserializer/types/std/vector.h"
 #include "bitserializer/types/std/tuple.h"
+#include "bitserializer/types/std/pair.h"
+#include "bitserializer/types/std/array.h"
+#include "bitserializer/types/std/list.h"
+#include "bitserializer/types/std/deque.h"
+#include "bitserializer/types/std/forward_list.h"
+#include "bitserializer/types/std/set.h"
+#include "bitserializer/types/std/map.h"
+#include "bitserializer/types/std/optional.h"
+#include "bitserializer/types/std/memory.h"
+#include "bitserializer/types/std/valarray.h"
+#include "bitserializer/types/std/unordered_map.h"
 
 using namespace sv; using ref::Val; using tl::archName;
 
@@ -103,11 +114,130 @@ static void typedScenario(bsx::Ctx& c) {
 	for (auto& m : bad) c.violation(sigbase + "/at=" + cls + "/out=neighbour_disturbed", m + " | " + offDesc + "doc=" + (arch == tl::MsgPack ? bsx::hex(bytes) : bytes));
 }
 
+
+// ---- std-container scenario: the element loops of the std type adapters (types/std/*.h) ------------------------
+// One container of kind K holding three elements, followed by a field z and (one level up) by a second holder and a
+// sentinel, so that a misaligned reader shows in what follows. <= N offences at the container, its elements, z.
+template <class K> struct Holder2 { K c; int32_t z = -77;
+	template <class A> void Serialize(A& ar) { ar << BitSerializer::KeyValue("c", c) << BitSerializer::KeyValue("z", z); } };
+template <class K> struct Root2 { Holder2<K> first, second; int32_t tail = -78;
+	template <class A> void Serialize(A& ar) { ar << BitSerializer::KeyValue("first", first) << BitSerializer::KeyValue("second", second) << BitSerializer::KeyValue("tail", tail); } };
+struct KindDesc { const char* name; Val doc; bool isMap; };
+using Tup = std::tuple<int32_t, std::string, int32_t>;
+static Val seq123() { return Val::arr({Val::integer(1), Val::integer(2), Val::integer(3)}); }
+static const KindDesc gKinds[] = {
+	{"tuple<int,string,int>", Val::arr({Val::integer(1), Val::str("s"), Val::integer(3)}), false},
+	{"array<int,3>", seq123(), false}, {"list<int>", seq123(), false}, {"deque<int>", seq123(), false}, {"forward_list<int>", seq123(), false},
+	{"set<int>", seq123(), false}, {"valarray<int>", seq123(), false},
+	{"map<string,int>", Val::map({{Val::str("k1"), Val::integer(1)}, {Val::str("k2"), Val::integer(2)}, {Val::str("k3"), Val::integer(3)}}), true},
+	{"unordered_map<string,int>", Val::map({{Val::str("k1"), Val::integer(1)}, {Val::str("k2"), Val::integer(2)}, {Val::str("k3"), Val::integer(3)}}), true},
+	{"pair<int,string>", Val::map({{Val::str("key"), Val::integer(1)}, {Val::str("value"), Val::str("s")}}), true},
+	{"optional<int>", Val::integer(5), false}, {"unique_ptr<int>", Val::integer(5), false},
+	{"vector<tuple<int,string,int>>", Val::arr({Val::arr({Val::integer(1), Val::str("s"), Val::integer(3)}), Val::arr({Val::integer(4), Val::str("t"), Val::integer(6)})}), false},
+};
+constexpr int NKINDS = sizeof(gKinds) / sizeof(gKinds[0]);
+// per kind: canary and a check of the loaded container against the (offended) document; off(i): element i was offended
+static void canaryOf(Tup& t) { t = Tup{-71, "canary", -73}; }
+static void canaryOf(std::array<int32_t, 3>& a) { a = {-71, -72, -73}; }
+static void canaryOf(std::pair<int32_t, std::string>& p) { p = {-71, "canary"}; }
+template <class T> static void canaryOf(T&) {}
+using OffFn = std::function<bool(int)>;
+static void chk(std::vector<std::string>& bad, bool ok, const std::string& m) { if (!ok) bad.push_back(m); }
+static void checkK(const Tup& t, const OffFn& off, std::vector<std::string>& bad, int row = 0, bool canaried = true) {
+	static const int32_t e0[] = {1, 4}, e2[] = {3, 6}; static const char* e1[] = {"s", "t"}; int r = row; const bool base = !canaried;
+	if (off(0)) chk(bad, std::get<0>(t) == -71 || base, "skipped tuple[0] changed"); else chk(bad, std::get<0>(t) == e0[r], "tuple[0]=" + std::to_string(std::get<0>(t)));
+	if (off(1)) chk(bad, std::get<1>(t) == "canary" || base, "skipped tuple[1] changed"); else chk(bad, std::get<1>(t) == e1[r], "tuple[1]=" + std::get<1>(t));
+	if (off(2)) chk(bad, std::get<2>(t) == -73 || base, "skipped tuple[2] changed"); else chk(bad, std::get<2>(t) == e2[r], "tuple[2]=" + std::to_string(std::get<2>(t)));
+}
+static void checkK(const std::array<int32_t, 3>& a, const OffFn& off, std::vector<std::string>& bad) { for (int i = 0; i < 3; ++i) { if (off(i)) chk(bad, a[static_cast<size_t>(i)] == -71 - i, "skipped array element changed"); else chk(bad, a[static_cast<size_t>(i)] == i + 1, "array[" + std::to_string(i) + "]=" + std::to_string(a[static_cast<size_t>(i)])); } }
+template <class Seq> static void checkSeq(const Seq& q, const OffFn& off, std::vector<std::string>& bad, const char* nm) {
+	std::vector<int32_t> v(std::begin(q), std::end(q));
+	if (v.size() != 3) { bad.push_back(std::string(nm) + ".size=" + std::to_string(v.size())); return; }
+	for (int i = 0; i < 3; ++i) if (!off(i)) chk(bad, v[static_cast<size_t>(i)] == i + 1, std::string(nm) + "[" + std::to_string(i) + "]=" + std::to_string(v[static_cast<size_t>(i)]));
+}
+static void checkK(const std::list<int32_t>& q, const OffFn& off, std::vector<std::string>& bad) { checkSeq(q, off, bad, "list"); }
+static void checkK(const std::deque<int32_t>& q, const OffFn& off, std::vector<std::string>& bad) { checkSeq(q, off, bad, "deque"); }
+static void checkK(const std::forward_list<int32_t>& q, const OffFn& off, std::vector<std::string>& bad) { checkSeq(q, off, bad, "forward_list"); }
+static void checkK(const std::valarray<int32_t>& q, const OffFn& off, std::vector<std::string>& bad) { checkSeq(q, off, bad, "valarray"); }
+static void checkK(const std::set<int32_t>& q, const OffFn& off, std::vector<std::string>& bad) { for (int i = 0; i < 3; ++i) if (!off(i)) chk(bad, q.count(i + 1) == 1, "set lost element " + std::to_string(i + 1)); chk(bad, q.size() <= 3, "set.size=" + std::to_string(q.size())); }
+template <class M> static void checkMap(const M& m, const OffFn& off, std::vector<std::string>& bad) { for (int i = 0; i < 3; ++i) { auto it = m.find("k" + std::to_string(i + 1)); if (!off(i)) chk(bad, it != m.end() && it->second == i + 1, "map lost or changed k" + std::to_string(i + 1)); } chk(bad, m.size() <= 3, "map.size=" + std::to_string(m.size())); }
+static void checkK(const std::map<std::string, int32_t>& m, const OffFn& off, std::vector<std::string>& bad) { checkMap(m, off, bad); }
+static void checkK(const std::unordered_map<std::string, int32_t>& m, const OffFn& off, std::vector<std::string>& bad) { checkMap(m, off, bad); }
+static void checkK(const std::pair<int32_t, std::string>& p, const OffFn& off, std::vector<std::string>& bad) {
+	if (off(0)) chk(bad, p.first == -71, "skipped pair.key changed"); else chk(bad, p.first == 1, "pair.key=" + std::to_string(p.first));
+	if (off(1)) chk(bad, p.second == "canary", "skipped pair.value changed"); else chk(bad, p.second == "s", "pair.value=" + p.second);
+}
+static void checkK(const std::optional<int32_t>& o, const OffFn&, std::vector<std::string>& bad) { chk(bad, o && *o == 5, "optional not loaded"); }
+static void checkK(const std::unique_ptr<int32_t>& o, const OffFn&, std::vector<std::string>& bad) { chk(bad, o && *o == 5, "unique_ptr not loaded"); }
+static void checkK(const std::vector<Tup>& v, const OffFn& off, std::vector<std::string>& bad) {
+	// node order inside c: 0 = row0, 1..3 its elements, 4 = row1, 5..7 its elements
+	if (v.size() != 2) { bad.push_back("vector<tuple>.size=" + std::to_string(v.size())); return; }
+	if (!off(0)) checkK(v[0], [&](int i) { return off(1 + i); }, bad, 0, false);
+	if (!off(4)) checkK(v[1], [&](int i) { return off(5 + i); }, bad, 1, false);
+}
+template <class K> static void stdRun(bsx::Ctx& c, int arch, const KindDesc& kd, bool stream) {
+	static auto offs = offences();
+	Val h = Val::map({{Val::str("c"), kd.doc}, {Val::str("z"), Val::integer(9)}});
+	Val doc = Val::map({{Val::str("first"), h}, {Val::str("second"), h}, {Val::str("tail"), Val::integer(42)}});
+	Val& first = doc.m[0].second;
+	std::vector<Val*> nodes; collect(first, nodes);   // DFS without `first` itself: 0 = c, 1.. = its descendants, last = z
+	std::vector<Val> orig; for (auto* n : nodes) orig.push_back(*n);
+	std::string offDesc, offCls; std::vector<int> offAt;
+	for (size_t i = 0; i < nodes.size(); ++i) {
+		int k = c.deviate(1 + static_cast<int>(offs.size()), "offence");
+		if (!k) continue;
+		const auto& of = offs[static_cast<size_t>(k - 1)];
+		if (of.second.k == orig[i].k && of.first != "bigint") continue;
+		if (arch != tl::MsgPack && (of.second.k == Val::Bin || of.second.k == Val::Ts || of.second.k == Val::Ext)) continue;
+		if (arch == tl::Xml && (of.second.k == Val::Nil || ((of.second.k == Val::Arr || of.second.k == Val::Map) && (orig[i].k == Val::Arr || orig[i].k == Val::Map)))) continue;
+		if (of.first == "bool" && orig[i].k == Val::Int) continue;               // accepted as 0/1 by integer targets
+		if (of.second.k == Val::Nil && (kd.name[0] == 'o' || kd.name[0] == 'u') && i == 0) continue;   // null is a value of optional / unique_ptr
+		if (orig[i].k == Val::Str && (of.second.k == Val::Int || of.second.k == Val::F64 || of.second.k == Val::Bool) && arch != tl::MsgPack && arch != tl::Json) continue;   // text archives: any scalar text is a string
+		size_t skip = subtree(orig[i]) - 1;
+		*nodes[i] = of.second; offDesc += "@" + std::to_string(i) + "=" + of.first + " "; offAt.push_back(static_cast<int>(i));
+		offCls += std::string(i == 0 ? "container" : i + 1 == nodes.size() ? "z" : orig[i].k == Val::Arr ? "row" : "elem") + ":" + of.first + ",";
+		i += skip;
+	}
+	if (!tl::canCarry(arch, doc)) { c.outcome("n/a:format_cannot_carry"); return; }
+	std::string bytes = tl::emit(arch, doc);
+	std::string sigbase = std::string("C05/std/") + archName(arch) + (stream ? "/stream" : "/mem") + "/kind=" + kd.name;
+	c.describe(sigbase + "/off=" + offCls, offDesc + "doc=" + (arch == tl::MsgPack ? bsx::hex(bytes) : bytes));
+	Root2<K> r; canaryOf(r.first.c); canaryOf(r.second.c);
+	auto o = lib::opts(false, false);
+	auto run = [&](auto tag) { using A = typename decltype(tag)::type; if (stream) { std::istringstream is(bytes); return lib::guard([&] { BitSerializer::LoadObject<A>(r, is, o); }); } return lib::guard([&] { BitSerializer::LoadObject<A>(r, bytes, o); }); };
+	struct TMP { using type = tl::MP; }; struct TJS { using type = tl::JS; }; struct TXM { using type = tl::XM; };
+	lib::Out out = arch == tl::MsgPack ? run(TMP{}) : arch == tl::Json ? run(TJS{}) : run(TXM{});
+	c.outcome(out.cls); if (!offAt.empty()) c.nontrivial(sigbase + offDesc);
+	if (offAt.size() == 1 && arch == 0 && !stream && offAt[0] == 2) c.sample(sigbase + " " + offDesc + "-> " + out.cls);
+	if (!out.ok()) { c.violation(sigbase + "/off=" + offCls + "/out=" + out.cls, "Skip/Skip policies, well-formed document, but the load threw " + out.cls + ": " + out.what + " | " + offDesc + "doc=" + (arch == tl::MsgPack ? bsx::hex(bytes) : bytes)); return; }
+	auto isOff = [&](int idx) { return std::find(offAt.begin(), offAt.end(), idx) != offAt.end(); };
+	std::vector<std::string> bad; const int zIdx = static_cast<int>(nodes.size()) - 1;
+	if (!isOff(0)) { std::vector<std::string> b1; checkK(r.first.c, [&](int i) { return isOff(1 + i); }, b1); for (auto& m : b1) bad.push_back("first.c: " + m); }
+	if (isOff(zIdx)) chk(bad, r.first.z == -77, "skipped first.z changed to " + std::to_string(r.first.z)); else chk(bad, r.first.z == 9, "first.z=" + std::to_string(r.first.z));
+	{ std::vector<std::string> b2; checkK(r.second.c, [](int) { return false; }, b2); for (auto& m : b2) bad.push_back("second.c (no offence there): " + m); }
+	chk(bad, r.second.z == 9, "second.z=" + std::to_string(r.second.z)); chk(bad, r.tail == 42, "tail=" + std::to_string(r.tail));
+	for (auto& m : bad) c.violation(sigbase + "/off=" + offCls + "/out=neighbour_disturbed", m + " | " + offDesc + "doc=" + (arch == tl::MsgPack ? bsx::hex(bytes) : bytes));
+}
+static void stdScenario(bsx::Ctx& c) {
+	int arch = c.choose(3, "archive");   // MsgPack, JSON, XML
+	int k = c.choose(NKINDS, "kind"); bool stream = c.flag("stream"); const KindDesc& kd = gKinds[k];
+	switch (k) {
+	case 0: stdRun<Tup>(c, arch, kd, stream); break; case 1: stdRun<std::array<int32_t, 3>>(c, arch, kd, stream); break;
+	case 2: stdRun<std::list<int32_t>>(c, arch, kd, stream); break; case 3: stdRun<std::deque<int32_t>>(c, arch, kd, stream); break;
+	case 4: stdRun<std::forward_list<int32_t>>(c, arch, kd, stream); break; case 5: stdRun<std::set<int32_t>>(c, arch, kd, stream); break;
+	case 6: stdRun<std::valarray<int32_t>>(c, arch, kd, stream); break; case 7: stdRun<std::map<std::string, int32_t>>(c, arch, kd, stream); break;
+	case 8: stdRun<std::unordered_map<std::string, int32_t>>(c, arch, kd, stream); break; case 9: stdRun<std::pair<int32_t, std::string>>(c, arch, kd, stream); break;
+	case 10: stdRun<std::optional<int32_t>>(c, arch, kd, stream); break; case 11: stdRun<std::unique_ptr<int32_t>>(c, arch, kd, stream); break;
+	default: stdRun<std::vector<Tup>>(c, arch, kd, stream); break;
+	}
+}
+
 static void body(bsx::Ctx& c) {
 	static std::vector<Base> B = bases();
 	static auto offs = offences();
-	int scen = c.choose(2, "scenario");
+	int scen = c.choose(3, "scenario");
 	if (scen == 1) { typedScenario(c); return; }
+	if (scen == 2) { stdScenario(c); return; }
 	int arch = c.choose(4, "archive");
 	int bi = c.choose(static_cast<int>(B.size()), "base");
 	const Base& b = B[static_cast<size_t>(bi)];
